@@ -22,7 +22,8 @@ def run(ctx):
     stats = {}
     ctx.rule = ("every description state of MetaMC (Mode=c10) is one vector: a valid description of the C09 universe "
                 "(rich scope, inlined and plain one-of, enum-keyed map, units, nested scope, recursive reference, plugin "
-                "schemas with signals) after 0..MaxMut structural mutations - delete / duplicate / rename / retype(9 "
+                "schemas with signals, units on int / float / int-enum, chains of single-property objects) after 0..MaxMut "
+                "structural mutations - delete / duplicate / rename (also to the integer keys -5, -1, 0) / retype(9 "
                 "replacement values) / repoint(every string of the description + a fresh one) at every node -, or a "
                 "grammar-free tree; distinct = distinct (entry point, description tree); non-trivial = all but the "
                 "unmutated bases; plus seeded random mutations of random real descriptions")
@@ -49,7 +50,7 @@ def run(ctx):
     shards = 12 if thorough else 6
     count = 400 if thorough else 60
     rcases = [dict(mode="rand", what="c10", seed=ctx.seed * 1000 + i, count=count) for i in range(shards)]
-    rres = M.run_driver(ctx, rcases, "c10-rand")
+    rres = M.run_driver(ctx, rcases, "c10-rand", case_timeout="90s")
     trace = M.consume(ctx, rcases, rres, stats)
     ctx.sample(rcases[0])
     M.validate_trace(ctx, trace, stats, "c10")
@@ -62,8 +63,11 @@ def run(ctx):
         "values built through the public accessors, GetDefaults, SelfSerialize, ReflectedType, ValidateReferences on "
         "every node reachable through the public accessors",
         "panics that a valid Go-built schema shows as well (baseline run at start) are C04's and not counted; nodes "
-        "from which a cycle of single-property objects or of defaulted object-typed properties is reachable are not "
-        "fed inputs (stack exhaustion on Go-built schemas too)",
+        "from which a cycle of defaulted object-typed properties is reachable are not fed inputs (known finding of C04: "
+        "stack exhaustion on Go-built schemas too)",
+        "numbers with units are also fed quantities written with every unit name, values violating each bound, and "
+        "their units' Format* operations; an operation that does not return within the per-case bound (8 s, confirmed "
+        "by two reruns with 16 s) is a hang and a violation",
         "a stand-alone scope may leave references to a foreign namespace unlinked (the embedding side applies it); a "
         "plugin schema may not",
         "the model is the design the property demands: load = accept + link + checks, each failing with an error",
